@@ -1,4 +1,5 @@
 import Hls.Proofs.MediaRT
+import Hls.Proofs.MediaK2
 import Hls.Proofs.WrittenRT
 import Hls.Proofs.ParsedMedia
 import Hls.Proofs.ExamplesMedia
@@ -96,6 +97,56 @@ theorem media_roundtrip_parsed (e : Option Nat) (s : Str) (p : MediaPlaylist)
     ∃ text, p.show = .ok text ∧ parseMediaWith (bE e) text = .ok p := by
   obtain ⟨rest, ls, _, h2, h3⟩ := parseMediaWith_ok (bE e) s p h
   exact media_roundtrip_wf e s p h hk2 (assembled_mediaWF e ls p h3 (text_lines_good rest ls h2) ho)
+
+/-- **what write → parse does to EVERY playlist the parser returns — the exact content of finding K2.**
+No `NoK2`: for every string `s` with `parse s = ok p` (and the float facts), `to_string` succeeds and parsing the text
+returns `fixMaps p`, i.e. `p` with every EXT-X-MAP covered by the keys of its own segment. Everything else — the
+playlist-level values, the segments with their numbers, URIs, durations, titles, byte ranges, flags, date ranges,
+per-segment keys and effective IVs, the unknown tags — comes back unchanged, and `fixMaps p = p` exactly when no key
+line stands between a map and its URI (`fixMaps_id`, `k2_counterexample`). -/
+theorem media_roundtrip_general (e : Option Nat) (s : Str) (p : MediaPlaylist)
+    (h : parseMediaWith (bE e) s = .ok p) (ho : MediaOpen p) :
+    ∃ text, p.show = .ok text ∧ parseMediaWith (bE e) text = .ok (fixMaps p) := by
+  obtain ⟨rest, ls, _, h2, h3⟩ := parseMediaWith_ok (bE e) s p h
+  obtain ⟨lines, w1, w2⟩ := write_parse_k2 e ls p h3 (text_lines_noNum rest ls h2)
+  have wf := assembled_mediaWF e ls p h3 (text_lines_good rest ls h2) ho
+  refine ⟨pfxM3u ++ ['\n'] ++ renderLines lines, by simp [MediaPlaylist.show, w1], ?_⟩
+  rw [parseMedia_of_written (bE e) lines (written_lines_rt p wf lines w1)]
+  exact w2
+
+/-- **serialisation is a fixed point after one round, K2 or not**: the text written for `fixMaps p` is the text
+written for `p` (the writer does not look at a map's key list) -/
+theorem media_fixed_point_general (p : MediaPlaylist) : (fixMaps p).show = p.show := by
+  have h := writeLines_fixMaps p
+  unfold MediaPlaylist.show
+  cases hp : p.writeLines with
+  | ok lp =>
+    rw [hp] at h
+    cases hq : (fixMaps p).writeLines with
+    | ok lq =>
+      rw [hq] at h
+      simp only [Res.map, Res.ok.injEq] at h
+      have e : renderLines lq = renderLines lp := by
+        have hr : ∀ l : Line, l.norm.render = l.render := by intro l; cases l <;> rfl
+        have : ∀ ls : List Line, renderLines (ls.map Line.norm) = renderLines ls := by
+          intro ls
+          simp only [renderLines, List.flatMap_map, hr]
+        rw [← this lq, h, this lp]
+      simp [e]
+    | err => rw [hq] at h; cases h
+    | panic => rw [hq] at h; cases h
+  | err =>
+    rw [hp] at h
+    cases hq : (fixMaps p).writeLines with
+    | ok lq => rw [hq] at h; cases h
+    | err => rfl
+    | panic => rw [hq] at h; cases h
+  | panic =>
+    rw [hp] at h
+    cases hq : (fixMaps p).writeLines with
+    | ok lq => rw [hq] at h; cases h
+    | err => rw [hq] at h; cases h
+    | panic => rfl
 
 /-- **the canonical text of any well-formed value is read faithfully**: no parse in the hypotheses — for every
 value `p` with the structural facts `WF p e` (what `build` guarantees: numbering, resolved ranges, key coverage of maps,
